@@ -177,6 +177,19 @@ def check_case(ctx, case):
                 sm = pe.obs._smooth_eigenvalues(cor, E)
                 if abs(np.trace(sm) - np.trace(cor)) > 1e-9 * n:
                     probs.append(('violation', 'smoothing-trace', '%r vs %r' % (np.trace(sm), np.trace(cor))))
+                # the public option: covariance(..., smooth=E) is the smoothed correlation matrix, rescaled by the errors
+                try:
+                    cs = pe.covariance(obs, correlation=True, smooth=E)
+                    cv = pe.covariance(obs, smooth=E)
+                    if np.max(np.abs(cs - sm)) > 1e-10:
+                        probs.append(('violation', 'smooth-option-correlation', 'covariance(correlation=True, smooth=%d) is not the smoothed correlation matrix (max dev %r)' % (E, float(np.max(np.abs(cs - sm))))))
+                    ref_ = np.diag(dv) @ sm @ np.diag(dv)
+                    if np.max(np.abs(cv - ref_)) > 1e-10 * np.max(sc):
+                        probs.append(('violation', 'smooth-option-covariance', 'covariance(smooth=%d) is not D corr_smoothed D (max dev %r)' % (E, float(np.max(np.abs(cv - ref_))))))
+                    if np.max(np.abs(cs - cs.T)) > 1e-12:
+                        probs.append(('violation', 'smooth-option-asymmetric', ''))
+                except Exception as e:
+                    probs.append(('violation', 'smooth-option-exception', '%s: %s' % (type(e).__name__, str(e)[:120])))
         # sort_corr: key list, block sizes and the insertion order of the dictionary are independent
         srng = __import__('random').Random(case['seed'] + 7)
         nk = srng.randint(1, min(4, n))
